@@ -7,6 +7,7 @@ import (
 	"strings"
 
 	schema "github.com/jsightapi/jsight-schema-core"
+	"github.com/jsightapi/jsight-schema-core/notations/jschema"
 
 	"verifharness/internal/gen"
 	"verifharness/internal/mon"
@@ -177,6 +178,7 @@ func c04Boundary(r *mon.Run) {
 
 func c04Run(r *mon.Run) {
 	c04Boundary(r)
+	c04ItemComments(r)
 	rng := r.Rand("c04")
 	n := r.Share(r.Pick(60_000, 2_000_000))
 	accepted := 0
@@ -217,4 +219,69 @@ func init() {
 		Assumptions: []string{"the model printer and the library's parser are the two sides being compared; rules the library marks Source=Generated are ignored", "TokenType of a quoted user-type name inside a rule value may be 'string' or 'reference' (the library uses both)",
 			"SchemaType and InheritedFrom are not judged here (C20 / C07)"},
 	})
+}
+
+// c04ItemComments: the items of an enum list written inside a multi-line annotation may carry `//` comments of their
+// own; the AST reports each comment with its item, exactly as written (a `#`, `/*` or `//` inside it is comment text).
+func c04ItemComments(r *mon.Run) {
+	comments := []string{"first", "see issue #12", "a // b", "50% /* off", "poza liczbą", "ok 😅", "{min: 1}", "- dash", "x", "two  blanks", "@a | @b"}
+	idx := 0
+	for _, nl := range []string{"\n", "\r\n", "\r"} {
+		for ci, c1 := range comments {
+			c2 := comments[(ci+3)%len(comments)]
+			for _, shape := range []string{
+				`"a" /* {enum: [%NL%  "a", // %C1%%NL%  "b" // %C2%%NL%]} */`,
+				`"a" /* {minLength: 1, enum: [%NL%  "a", // %C1%%NL%  "b", // %C2%%NL%  7%NL%]} - note */`,
+				`{%NL%  "k": "b" /* {or: [{type: "enum", enum: [%NL%    "a", // %C1%%NL%    "b" // %C2%%NL%  ]}, "integer"]} */%NL%}`,
+			} {
+				if !r.Mine(idx) {
+					idx++
+					continue
+				}
+				idx++
+				text := strings.NewReplacer("%NL%", nl, "%C1%", c1, "%C2%", c2).Replace(shape)
+				r.Eval(1)
+				var ast schema.ASTNode
+				var err error
+				if p := mon.Guard(func() {
+					s := jschema.New("root", text)
+					if err = s.Check(); err == nil {
+						ast, err = s.GetAST()
+					}
+				}); p != nil {
+					r.Violate("panic", "GetAST/"+p.Site, fmt.Sprintf("GetAST panicked (%s) on %q", p.Value, text), map[string]any{"text": text})
+					continue
+				}
+				if err != nil {
+					r.Inconclusive("item-comment-text-not-accepted")
+					if r.Shard == 0 {
+						r.Note("item comment text not accepted: " + mon.Trunc(err.Error(), 80) + " :: " + mon.Trunc(text, 120))
+					}
+					continue
+				}
+				node := ast
+				if len(ast.Children) == 1 {
+					node = ast.Children[0]
+				}
+				var items []schema.RuleASTNode
+				if node.Rules != nil {
+					if e, ok := node.Rules.Get("enum"); ok {
+						items = e.Items
+					} else if o, ok := node.Rules.Get("or"); ok && len(o.Items) > 0 && o.Items[0].Properties != nil {
+						if e, ok := o.Items[0].Properties.Get("enum"); ok {
+							items = e.Items
+						}
+					}
+				}
+				r.Nontrivial("itemc", text)
+				if len(items) < 2 || items[0].Comment != c1 || items[1].Comment != c2 {
+					got := []string{}
+					for _, it := range items {
+						got = append(got, it.Comment)
+					}
+					r.Violate("ast-item-comment", fmt.Sprintf("%q / %q in %s", c1, c2, mon.Trunc(shape, 40)), fmt.Sprintf("the enum items are commented %q and %q; the AST reports the comments %q for %q", c1, c2, got, text), map[string]any{"text": text})
+				}
+			}
+		}
+	}
 }
